@@ -46,7 +46,7 @@ REAL_VS_STUB = {
     'stub_or_simulator_owned': ['user flatten/unflatten callables (universe.Funcs)', 'GC timing (disabled; injected as a step)',
                                 'history of mutations / registry changes (choice tape)'],
 }
-EXPECTED_PROBES = ('step:catalog', 'cycle-reclaimed:custom-metadata-childless', 'cycle-reclaimed:custom-entries', 'cycle-reclaimed:dict-key', 'cycle-reclaimed:defaultdict-factory', 'cycle-reclaimed:namedtuple-class', 'step:create', 'step:mutate_source', 'step:mutate_handout', 'step:operand', 'step:registry', 'step:drop_tree',
+EXPECTED_PROBES = ('run-under-insertion-order', 'step:catalog', 'cycle-reclaimed:custom-metadata-childless', 'cycle-reclaimed:custom-entries', 'cycle-reclaimed:dict-key', 'cycle-reclaimed:defaultdict-factory', 'cycle-reclaimed:namedtuple-class', 'step:create', 'step:mutate_source', 'step:mutate_handout', 'step:operand', 'step:registry', 'step:drop_tree',
                    'step:gc', 'step:cycle', 'operand:failed', 'operand:ok', 'leaf-release-checked', 'cycle-reclaimed')
 
 ROUTES = ('dataclass', 'dataclass', 'flatten', 'structure', 'with_path', 'with_accessor', 'child', 'children', 'one_level', 'transform', 'compose',
@@ -139,6 +139,18 @@ def diff_obs(a, b):
 
 def run_job(job, io):
     tape = Tape(replay=job['tape']) if 'tape' in job else Tape(seed=derive_seed(job.get('seed', 0), PROPERTY, job['i']))
+    # one run in three happens entirely inside an insertion-ordered block: key lists are then stored in insertion order, so an
+    # operation that (re)sorts a list it does not own changes a treespec for good, where in sorted mode the sort is a no-op
+    mode = tape.draw(3, 'dict-order-mode')
+    if mode == 2:
+        with optree.dict_insertion_ordered(True, namespace='ns'):
+            out = _run_body(job, io, tape)
+        out.setdefault('probes', {})['run-under-insertion-order'] = 1
+        return out
+    return _run_body(job, io, tape)
+
+
+def _run_body(job, io, tape):
     U.HOOK = None
     violations, keys, probes = [], set(), collections.Counter()
     oplog = []
@@ -401,14 +413,14 @@ def run_job(job, io):
                         probes['setstate-refused-unregistered'] += 1
                         sp2 = None
                     if sp2 is not None:
-                        before = (repr(sp2), sp2.entries(), sp2.paths(), sp2 == sp)
+                        before = (repr(sp2), sp2.entries(), sp2.paths(), sp2 == sp, gen.describe(sp2.unflatten(list(range(sp2.num_leaves)))), repr(sp2.__getstate__()))
                         for n in mine[0]:
                             if n[0] in (5, 7, 8):
                                 scramble(n[2])
                                 if len(n) > 7:
                                     scramble(n[7])
                         try:
-                            after = (repr(sp2), sp2.entries(), sp2.paths(), sp2 == sp)
+                            after = (repr(sp2), sp2.entries(), sp2.paths(), sp2 == sp, gen.describe(sp2.unflatten(list(range(sp2.num_leaves)))), repr(sp2.__getstate__()))
                         except Exception as ex2:  # noqa: BLE001
                             after = 'raised %s: %s' % (type(ex2).__name__, str(ex2)[:120])
                         if after != before:
